@@ -1,4 +1,32 @@
+mod api;
+mod db;
+mod render;
+mod run;
+mod value;
+
 fn main() {
-    let o = prqlc::Options::default().no_format().no_signature();
-    println!("{:?}", prqlc::compile("from t | select a", &o));
+    api::install_panic_hook();
+    let args: Vec<String> = std::env::args().skip(1).collect();
+    if args.is_empty() {
+        eprintln!("usage: pv <subcommand> ...");
+        std::process::exit(2);
+    }
+    let code = match args[0].as_str() {
+        "run" => run::main(&args[1..]),
+        "render" => {
+            // stdin: one program per line -> PRQL text
+            let dbset: serde_json::Value =
+                serde_json::from_str(&std::fs::read_to_string(&args[1]).expect("dbset")).expect("json");
+            for l in std::io::stdin().lines() {
+                let p: serde_json::Value = serde_json::from_str(&l.unwrap()).expect("json");
+                println!("{}\n---", render::program(&p, &dbset["schema"]));
+            }
+            0
+        }
+        other => {
+            eprintln!("unknown subcommand {other}");
+            2
+        }
+    };
+    std::process::exit(code);
 }
